@@ -24,7 +24,7 @@ class C16(Prop):
         "0-3 descriptor names, OID lists of 0-4, optional descriptions and 0-3 extensions with 0-3 values made of quotes, "
         "backslashes, the literal texts \\27 \\5c \\5C, '|', '$', parentheses, control and non-ASCII characters, all "
         "flags/kinds/usages, syntax lengths to 10^12; str() and from_string() are compared with the extracted model, the "
-        "text is parsed by an independent RFC 4512 reference parser; non-trivial = has a description or an extension"
+        "text is parsed by an independent RFC 4512 reference parser; half of the objects are built empty, rendered once and completed in place before str(); every from_string is made twice with the first result modified in between; non-trivial = has a description or an extension"
     )
     assumptions = ["strings contain no lone surrogates; descriptions and extension values are non-empty"]
 
